@@ -20,13 +20,14 @@ def norm(text):
 
 class Ob:
     """One obligation = one rule instance evaluated on one construct."""
-    __slots__ = ("rule", "construct", "what", "status", "detail", "key_detail", "required", "loc", "kind")
+    __slots__ = ("rule", "construct", "what", "status", "detail", "key_detail", "required", "loc", "kind", "pointed")
 
     def __init__(self, rule, construct, what, status, detail="", key_detail=None, required=True, loc=None, kind=""):
         self.rule, self.construct, self.what, self.status = rule, construct, norm(what), status
         self.detail = norm(detail)
         self.key_detail = norm(key_detail if key_detail is not None else what)
         self.required, self.loc, self.kind = required, loc, kind
+        self.pointed = False
 
     @property
     def key(self):
@@ -91,29 +92,36 @@ class Ctx:
                 if best is None or len(q0) > len(best[0]):
                     best = (q0, n)
         if best is not None:
+            left = (getattr(self.repo, "unfolded", None) or {}).get(best[0])
+            if left and best[1] <= self.ALIGN_MAX:
+                return (best[0], f"calls {', '.join(left)} (new; could not be read back into the function) and")
             return best if best[1] > self.ALIGN_MAX else None
         smallest = min(changed.items(), key=lambda kv: kv[1])
         return smallest if smallest[1] > self.ALIGN_MAX else None
 
-    def bad(self, rule, construct, what, detail="", key_detail=None, loc=None):
-        r = None if rule.upper().startswith(self.ROBUST_RULES) else self.restructured(construct)
+    def bad(self, rule, construct, what, detail="", key_detail=None, loc=None, pointed=False):
+        """`pointed=True`: the finding is positive evidence read off one statement (e.g. "this attribute is assigned a shallow copy"), whose
+        meaning does not depend on the shape of the rest of the function -- it is reported whatever else changed (no alignment gate)."""
+        r = None if (pointed or rule.upper().startswith(self.ROBUST_RULES)) else self.restructured(construct)
         if r is not None and Ob(rule, construct, what, BAD, detail, key_detail=key_detail).key in known_keys(self.prop):
             r = None            # a listed finding of the confirmed tree is what it is, whatever else changed
         if r is not None:
-            ob = Ob(rule, construct, what, UNKNOWN, f"{r[0]} differs from its confirmed form by {r[1]} canonical lines (more than {self.ALIGN_MAX}): the rule "
+            ob = Ob(rule, construct, what, UNKNOWN, f"{r[0]} {'differs from its confirmed form by ' + str(r[1]) + ' canonical lines (more than ' + str(self.ALIGN_MAX) + ')' if isinstance(r[1], int) else r[1] + ' differs from its confirmed form'}: the rule "
                     f"cannot be aligned with the restructured function; it reads: {detail}"[:600], key_detail=key_detail, required=True, loc=loc)
             self.obs.append(ob)
             return
-        self.obs.append(Ob(rule, construct, what, BAD, detail, key_detail=key_detail, loc=loc))
+        ob = Ob(rule, construct, what, BAD, detail, key_detail=key_detail, loc=loc)
+        ob.pointed = bool(pointed)
+        self.obs.append(ob)
 
     def unknown(self, rule, construct, what, detail="", required=True, loc=None):
         self.obs.append(Ob(rule, construct, what, UNKNOWN, detail, required=required, loc=loc))
 
-    def check(self, cond, rule, construct, what, detail="", key_detail=None, loc=None):
+    def check(self, cond, rule, construct, what, detail="", key_detail=None, loc=None, pointed=False):
         if cond:
             self.ok(rule, construct, what, detail, loc=loc)
         else:
-            self.bad(rule, construct, what, detail, key_detail=key_detail, loc=loc)
+            self.bad(rule, construct, what, detail, key_detail=key_detail, loc=loc, pointed=pointed)
         return bool(cond)
 
     def guard(self, fn, *args):
